@@ -18,8 +18,8 @@ PROPS = {
         "level": "exploration",
         "quick": cfg(16, 20, args=["bin_every=499"]),
         "thorough": cfg(16, 300, args=["bin_every=499"]),
-        "rule": "every message parsed from a generated stream (as C01, storage micros < 10^6, both source framings) is written with to_write, re-parsed, written again and decoded by the independent reference decoder; the concatenated export is re-read and re-exported; per case one message of the stream gets DLT\\x01 / DLS\\x01 written into its payload (start, end, random offset) or apid/ctid/ecu, is obtained by parsing it in front of a second message and goes through the same message oracle (C02 has no 'no embedded marker' precondition at message level); every 499th storage-framed case additionally goes through the real binary: `adlt convert in.dlt -o a.dlt` must write exactly the bytes of the message-wise export and `adlt convert a.dlt -o b.dlt` must be byte-identical to a.dlt; every 4th of these files consists of up to 40 near-maximal messages (larger than the 512 KiB read buffer of the file readers); every 2nd of them is preceded by a lifecycle scenario (several ECUs, merges; chosen by a census guided pre-screen for the merge-flush release path) written in normal form, whose export through the binary has to be byte identical to the input. Non-trivial = original header carried WEID or WSID or MSBF or payload > 60000; distinct = (source framing, header shape, payload size bucket).",
-        "floors": {"quick": {"evaluations": 10000, "distinct_nontrivial": 100, "files_compared": 5000, "bin_export_of_export": 50, "embedded_marker_msgs": 10000}, "thorough": {"evaluations": 200000, "distinct_nontrivial": 200}},
+        "rule": "every message parsed from a generated stream (as C01, storage micros < 10^6, both source framings) is written with to_write, re-parsed, written again and decoded by the independent reference decoder; the concatenated export is re-read and re-exported; per case one message of the stream gets DLT\\x01 / DLS\\x01 written into its payload (start, end, random offset) or apid/ctid/ecu, is obtained by parsing it in front of a second message and goes through the same message oracle (C02 has no 'no embedded marker' precondition at message level); every 499th storage-framed case additionally goes through the real binary: `adlt convert in.dlt -o a.dlt` must write exactly the bytes of the message-wise export and `adlt convert a.dlt -o b.dlt` must be byte-identical to a.dlt; every 4th of these files consists of up to 40 near-maximal messages (larger than the 512 KiB read buffer of the file readers) and half of those are exported the second time into a fifo whose reader takes the first bytes, stalls for 1.6 s and then reads the rest, with a capacity of 2 messages for the channels between the stages (hook H4): back pressure through every stage must not change a byte; every 2nd of them is preceded by a lifecycle scenario (several ECUs, merges; chosen by a census guided pre-screen for the merge-flush release path) written in normal form, whose export through the binary has to be byte identical to the input. Non-trivial = original header carried WEID or WSID or MSBF or payload > 60000; distinct = (source framing, header shape, payload size bucket).",
+        "floors": {"quick": {"evaluations": 10000, "distinct_nontrivial": 100, "files_compared": 5000, "bin_export_of_export": 50, "embedded_marker_msgs": 10000, "bin_exports_read_through_a_stalled_fifo": 8}, "thorough": {"evaluations": 200000, "distinct_nontrivial": 200}},
         "needs_bin": True,
         "assumptions": ["htyp version bits and the original len are not compared (to_write normalises them)", "file level comparison skipped (and counted) when the export contains an embedded marker"],
     },
@@ -76,8 +76,8 @@ PROPS = {
         "level": "exploration",
         "quick": cfg(16, 20),
         "thorough": cfg(16, 400),
-        "rule": "static lifecycle tables (1-6 lifecycles on 1-4 ECUs, parallel or far apart, built with Lifecycle::new + the public start_time field) and 1-300 (thorough 3000) messages; 2/3 of the cases satisfy the ordering premise by construction (reception = start + timestamp + delay, delay <= min delay, sorted by reception), the rest has arbitrary delays, unknown lifecycle ids, calculated times beyond reception, unordered reception; windows 1-10 s, min delays 0..30 s. The premise is re-checked by the model on every case. Non-trivial = >=3 messages, >=2 lifecycles and the sorter really reordered; distinct = (window, delay class, ecus, lifecycles, premise, size, control requests).",
-        "floors": {"quick": {"evaluations": 500000, "distinct_nontrivial": 2000, "runs_with_premise_satisfied": 300000, "runs_where_sorting_reordered": 200000}, "thorough": {"evaluations": 5000000, "distinct_nontrivial": 5000}},
+        "rule": "static lifecycle tables (1-6 lifecycles on 1-4 ECUs, parallel or far apart, built with Lifecycle::new + the public start_time field; in 1/3 of the cases some lifecycles are resume lifecycles created by Lifecycle::update itself (20 s reception gap, continuing uptime), 2/3 of them with a start at or up to 8 s before the start of the lifecycle they resume - the calculated time stays start of the message's own lifecycle + timestamp) and 1-300 (thorough 3000) messages; 2/3 of the cases satisfy the ordering premise by construction (reception = start + timestamp + delay, delay <= min delay, sorted by reception), the rest has arbitrary delays, unknown lifecycle ids, calculated times beyond reception, unordered reception; windows 1-10 s, min delays 0..30 s. The premise is re-checked by the model on every case. Non-trivial = >=3 messages, >=2 lifecycles and the sorter really reordered; distinct = (window, delay class, ecus, lifecycles, premise, size, control requests).",
+        "floors": {"quick": {"evaluations": 500000, "distinct_nontrivial": 2000, "runs_with_premise_satisfied": 300000, "runs_where_sorting_reordered": 200000, "premise_runs_with_resume_lifecycle_starting_before_the_resumed_one": 30000}, "thorough": {"evaluations": 5000000, "distinct_nontrivial": 5000}},
         "assumptions": ["lifecycle start times < 2^52 us; the u64::MAX marker of merged lifecycles is never published", "windows_size_secs >= 1 as the statement says"],
     },
     "C11": {
@@ -85,8 +85,8 @@ PROPS = {
         "quick": cfg(16, 25),
         "thorough": cfg(16, 400),
         "exhaustive_key": "sweep_all_256_type_bytes",
-        "rule": "abstract filters are rendered into every front end that can express them (JSON with explicit or auto-detected regex flags, dlt-viewer DLF XML, dlt-convert 'APID CTID ' cells, and from_json(to_json(f))) and Filter::matches is compared with a 40-line specification whose regex criteria come from a catalogue of (pattern, Rust predicate) pairs, so the oracle never runs a regex engine. Part 1 sweeps the small universe completely: every single-criterion filter (10 literal ids and 8 regexes x ecu/apid/ctid, all 256 type values, 8 mstp values, all level bounds and pairs, 7 payload texts and 6 payload regexes x case flag, lifecycle lists, 16 apid+ctid pairs) x not x enabled against a fixed message universe (ids short/full, with and without extended header, type bytes: thorough all 256, quick every 7th plus 8 special). Part 2 draws random criteria subsets and random messages. Non-trivial = filter with >=1 matching and >=1 non-matching message; distinct = (kind, enabled, not, per criterion variant, front ends expressible).",
-        "floors": {"quick": {"evaluations": 100000, "distinct_nontrivial": 500, "pairs_json": 10000000, "pairs_dlf": 3000000, "pairs_convert-format": 10000, "sweep_filters": 1500}, "thorough": {"evaluations": 1000000, "distinct_nontrivial": 1000, "sweep_all_256_type_bytes": 1}},
+        "rule": "abstract filters are rendered into every front end that can express them (JSON with explicit or auto-detected regex flags, dlt-viewer DLF XML, dlt-convert 'APID CTID ' cells, and from_json(to_json(f))) and Filter::matches is compared with a 40-line specification whose regex criteria come from a catalogue of (pattern, Rust predicate) pairs, so the oracle never runs a regex engine. Part 1 sweeps the small universe completely: every single-criterion filter (10 literal ids and 8 regexes x ecu/apid/ctid, all 256 type values, 8 mstp values, all level bounds and pairs, 11 payload texts and 8 payload regexes (incl. criteria that begin or end with a blank or are a single blank, which tell a front end that trims the criterion from one that keeps it) x case flag, lifecycle lists, 16 apid+ctid pairs) x not x enabled against a fixed message universe (ids short/full, with and without extended header, type bytes: thorough all 256, quick every 7th plus 8 special). Part 2 draws random criteria subsets and random messages. Non-trivial = filter with >=1 matching and >=1 non-matching message; distinct = (kind, enabled, not, per criterion variant, front ends expressible).",
+        "floors": {"quick": {"evaluations": 100000, "distinct_nontrivial": 500, "pairs_json": 10000000, "pairs_dlf": 3000000, "pairs_convert-format": 10000, "sweep_filters": 1500, "dlf_filters_with_blank_edged_payload_criterion": 300}, "thorough": {"evaluations": 1000000, "distinct_nontrivial": 1000, "sweep_all_256_type_bytes": 1}},
         "assumptions": ["ids in filters and messages are printable ASCII, NUL padded (regexes run on the 4 raw bytes)", "ambiguous encodings are not generated: '----' cells of the convert format, DLF payload texts with leading/trailing blanks or empty", "the ECU:APID:CTID expression front end lives in the binary and is exercised by C14 (--eac)"],
     },
     "C12": {
@@ -118,8 +118,8 @@ PROPS = {
         "level": "exploration",
         "quick": cfg(16, 30),
         "thorough": cfg(16, 400),
-        "rule": "(a) byte strings of 0-600 bytes split into 1-8 volumes incl. empty first/middle/last volumes; 10-500 operations read(n) (n = 0, 1, small, > total) and seek(Start|Current|End) with targets in [0,len] incl. exactly at and around volume boundaries, compared step by step with std::io::Cursor over the concatenation (bytes, positions; a 0-byte read while the model has bytes left is a violation) and drained at the end; (b) every 40th case: zip archives written by a raw zip writer (stored entries; names: nested dirs, unicode, blanks/brackets, duplicates, empty members, directories, '../x', 'a/../../x', absolute incl. the absolute path of a pre-existing file, names that differ from the patterns only in letter case, aliases such as 'dot.dlt' + './dot.dlt' or 'a/b.dlt' + 'a/./b.dlt' that resolve to one file, members larger than the 64 KiB copy buffer; in 1/3 of the filtered extractions some requested members are already present in the target directory as an earlier extraction left them) extracted with extract_to_dir over a chain of random volumes and (every 80th case) with extract_archives from single or multi-volume files on disk with a pattern from a catalogue of (glob, Rust predicate) pairs; sandbox listing before/after. Non-trivial = chain history with >=1 read cut at a volume boundary and >=1 seek, archive checked without finding; distinct = (volumes, empties, size, crossings, empty first/last) resp. archive cases.",
-        "floors": {"quick": {"evaluations": 500000, "distinct_nontrivial": 5000, "archives": 8000, "archives_with_hostile_names": 4000, "volume_boundary_crossings": 500000, "empty_volumes_used": 200000, "multi_volume_archives_on_disk": 800, "members_extracted_and_compared": 8000}, "thorough": {"evaluations": 10000000, "distinct_nontrivial": 10000}},
+        "rule": "(a) byte strings of 0-600 bytes split into 1-8 volumes incl. empty first/middle/last volumes; 10-500 operations read(n) (n = 0, 1, small, > total) and seek(Start|Current|End) with targets in [0,len] incl. exactly at and around volume boundaries, compared step by step with std::io::Cursor over the concatenation (bytes, positions; a 0-byte read while the model has bytes left is a violation) and drained at the end; (a2) every 4th case: the stream unzip.rs really opens - the crate private cloneable reader (hook verif_cloneable_reader) over a volume chain: up to 4 clones with their own positions over the one shared, position-caching chain; read(n) / in-range seek / clone on a random clone, each clone compared with the concatenation at its own position, and after half of the reads that were cut short at a volume border an access (by the same or another clone) right behind the range that was asked for; every clone drained at the end; (b) every 40th case: zip archives written by a raw zip writer (stored entries; names: nested dirs, unicode, blanks/brackets, duplicates, empty members, directories, '../x', 'a/../../x', absolute incl. the absolute path of a pre-existing file, names that differ from the patterns only in letter case, aliases such as 'dot.dlt' + './dot.dlt' or 'a/b.dlt' + 'a/./b.dlt' that resolve to one file, members larger than the 64 KiB copy buffer; in 1/3 of the filtered extractions some requested members are already present in the target directory as an earlier extraction left them) extracted with extract_to_dir over a chain of random volumes and (every 80th case) with extract_archives from single or multi-volume files on disk with a pattern from a catalogue of (glob, Rust predicate) pairs; sandbox listing before/after. Non-trivial = chain history with >=1 read cut at a volume boundary and >=1 seek, archive checked without finding; distinct = (volumes, empties, size, crossings, empty first/last) resp. archive cases.",
+        "floors": {"quick": {"evaluations": 500000, "distinct_nontrivial": 5000, "archives": 8000, "archives_with_hostile_names": 4000, "volume_boundary_crossings": 500000, "empty_volumes_used": 200000, "multi_volume_archives_on_disk": 800, "members_extracted_and_compared": 8000, "clone_reader_histories": 100000, "clone_reader_accesses_right_behind_a_short_read": 100000}, "thorough": {"evaluations": 10000000, "distinct_nontrivial": 10000}},
         "assumptions": ["only the default feature set (zip) is built; libarchive formats (7z, bz2) are outside the built configuration", "seek targets beyond the end or before 0 are excluded (std leaves the former implementation-defined and the chain clamps by design)", "duplicate member names accept either member's content"],
     },
     "C17": {
@@ -160,8 +160,8 @@ PROPS = {
         "needs_bin": True,
         "quick": cfg(16, 75, timeout_factor=6),
         "thorough": cfg(16, 900, timeout_factor=3),
-        "rule": "first third of the budget, library level: StreamContext built from JSON (stream/query, 0-3 enabled filters of every kind, windows) driven exactly as the server loop drives process_stream_new_msgs, with arrival batches {0, 1, chunk-1, chunk, chunk+1, random} and chunk limits {1,2,7,63,64,65,1000,3M}; after EVERY step filtered_msgs must equal the specification's matches below all_msgs_last_processed_len (queries truncated to window end). Rest of the budget, binary level: sessions against `adlt remote` (parser pacing / small channels through hook H4) on generated logs of 37/700/20000 verbose messages: stream and query windows (empty, beyond the end, whole, inside; on the 20000-message log half of the queries ask for everything), streams created before and after parsing finished, window changes (new id), search paging with page sizes 1-50 (or 1/2..1/10 of the stream) from arbitrary start positions until next_search_idx is absent, index lookups and (on a 500-message single-lifecycle log) time lookups; 1/3 of the sessions open the file time sorted (the ECUs of the logs have different uptimes, i.e. lifecycles with different start times, while the sorted order equals the file order); delivered DltMsgs are compared field by field with the file (index, reception time, timestamp, ecu/apid/ctid, mcnt, htyp, type, noar, text) and must not precede the ok: reply announcing their stream id; 1/6 of the sessions are one pass sessions (open with collect=one_pass_streams, 1-3 one_pass streams with windows and filters created while paused, resume; the server drains the messages after every round and every stream must still receive exactly its window); 1/4 of the streams run in text mode (\"binary\":false): every `stream:<id> msg(<pos>):<header>` line must carry the announced id, consecutive stream positions from the window start and the header text of the expected file message. Non-trivial = library history with active filters and more messages than the chunk limit / complete binary session; distinct = (kind, chunk, filters, size, window class) resp. session shapes.",
-        "floors": {"quick": {"evaluations": 20000, "distinct_nontrivial": 300, "bin_sessions": 50, "windows_checked": 100, "window_changes_checked": 60, "searches_checked": 40, "lookups_checked": 50, "messages_compared_field_by_field": 2000, "sessions_on_time_sorted_files": 10, "one_pass_streams_checked": 10}, "thorough": {"evaluations": 200000, "distinct_nontrivial": 1000, "bin_sessions": 2000}},
+        "rule": "first third of the budget, library level: StreamContext built from JSON (stream/query, 0-3 enabled filters of every kind, windows) driven exactly as the server loop drives process_stream_new_msgs, with arrival batches {0, 1, chunk-1, chunk, chunk+1, random} and chunk limits {1,2,7,63,64,65,1000,3M}; after EVERY step filtered_msgs must equal the specification's matches below all_msgs_last_processed_len (queries truncated to window end). Rest of the budget, binary level: sessions against `adlt remote` (parser pacing / small channels through hook H4) on generated logs of 37/700/20000 verbose messages: stream and query windows (empty, beyond the end, whole, inside; on the 20000-message log half of the queries ask for everything), streams created before and after parsing finished, window changes (new id), search paging with page sizes 1-50 (or 1/2..1/10 of the stream) from arbitrary start positions until next_search_idx is absent (1/6 of the searches start 1-6 positions before the end of the stream with pages of 1-3 and, in half of them, no search filter at all; another 1/6 derive the page size from the number of hits the specification expects - hits-1, hits, half - so that the page limit is reached exactly at the last hits), index lookups and (on a 500-message single-lifecycle log) time lookups; 1/3 of the sessions open the file time sorted (the ECUs of the logs have different uptimes, i.e. lifecycles with different start times, while the sorted order equals the file order); delivered DltMsgs are compared field by field with the file (index, reception time, timestamp, ecu/apid/ctid, mcnt, htyp, type, noar, text) and must not precede the ok: reply announcing their stream id; 1/6 of the sessions are one pass sessions (open with collect=one_pass_streams, 1-3 one_pass streams with windows and filters created while paused, resume; the server drains the messages after every round and every stream must still receive exactly its window); 1/4 of the streams run in text mode (\"binary\":false): every `stream:<id> msg(<pos>):<header>` line must carry the announced id, consecutive stream positions from the window start and the header text of the expected file message. Non-trivial = library history with active filters and more messages than the chunk limit / complete binary session; distinct = (kind, chunk, filters, size, window class) resp. session shapes.",
+        "floors": {"quick": {"evaluations": 20000, "distinct_nontrivial": 300, "bin_sessions": 50, "windows_checked": 100, "window_changes_checked": 60, "searches_checked": 40, "searches_with_page_limit_at_the_last_hits": 3, "lookups_checked": 50, "messages_compared_field_by_field": 2000, "sessions_on_time_sorted_files": 10, "one_pass_streams_checked": 10}, "thorough": {"evaluations": 200000, "distinct_nontrivial": 1000, "bin_sessions": 2000}},
         "assumptions": ["queries are issued after the file was parsed (a query issued while arrival stalls is ended by the server on its first idle poll: documented design, not part of the statement)", "time lookups are checked on the monotonic log only (one ECU, one lifecycle, calculated time strictly increasing), index lookups on all logs", "a window wait that times out while the server is still parsing (slow pacing) is inconclusive"],
     },
     "C14": {
